@@ -2,7 +2,7 @@
    Property theorems only: each closed by [exact] of a lemma from Proofs/, followed by Print Assumptions.
    The model describes the code after the repairs of findings C06-F1, F2, F4 and F5 (F3 stays known). *)
 From Coq Require Import List String Bool Arith.
-From Verif Require Import Lib.Sexp Model.C06_alias Proofs.C06_alias Proofs.C06_fixpoint.
+From Verif Require Import Lib.Sexp Model.C06_alias Proofs.C06_alias Proofs.C06_fixpoint Proofs.C06_sideload.
 Import ListNotations.
 Open Scope list_scope. Open Scope nat_scope.
 
@@ -182,6 +182,72 @@ Theorem C06_unique_paths_needed :
    snd (deref_top w_dup_coll (fst (resolve_top w_dup_coll w_dup2_heap 1)) 1) = Err ECyc).
 Proof. exact (conj unique_paths_needed unique_paths_needed_for_invariance). Qed.
 Print Assumptions C06_unique_paths_needed.
+
+(* The outer loop of resolve_aliases WITH side-loading (external = True / None), over an abstract world: one pass over
+   the collection returns (some alias resolved, unresolved set, collection grew).  For EVERY world type, pass function
+   and measure such that (1) a pass that resolves or loads uses up some of the measure (unlinked aliases + packages of a
+   finite universe not loaded yet), (2) a pass that does neither changes nothing, (3) a package is only loaded for an
+   alias reported unresolved in that pass, (4) once a pass ends with nothing unresolved a further pass is quiet:
+   the loop `while unresolved and (progress or unresolved != prev)` ends within measure+2 passes, a further pass on the
+   world it leaves changes nothing and reports the returned set, and a second call returns the same set, the same
+   world, in at most 2 iterations.  (1)-(3) are read off the code; (4) is C06_fixpoint_direct_heaps for external=False
+   and is evaluated at run time in the side-loading streams.  The harness replays the pass results observed in every
+   side-loading run through the extracted [ext_loop] and compares iterations and returned set. *)
+Theorem C06_side_loading_loop :
+  forall (W : Type) (pass : W -> W * (bool * list string * bool)) (mu : W -> nat),
+  (forall w w' rs u g, pass w = (w', (rs, u, g)) -> rs || g = true -> mu w' < mu w) ->
+  (forall w w' u, pass w = (w', (false, u, false)) -> w' = w) ->
+  (forall w w' rs g, pass w = (w', (rs, [], g)) -> g = false) ->
+  (forall w w' rs, pass w = (w', (rs, [], false)) -> pass w' = (w', (false, [], false))) ->
+  forall w,
+  exists w' u it,
+    ext_loop W pass (mu w + 2) w [] 0 = Some (w', u, it) /\ it <= mu w + 2 /\
+    pass w' = (w', (false, u, false)) /\
+    exists it', ext_loop W pass (mu w' + 2) w' [] 0 = Some (w', u, it') /\ it' <= 2.
+Proof. exact ext_loop_fixpoint. Qed.
+Print Assumptions C06_side_loading_loop.
+
+(* non-vacuity: a world with aliases to link and packages to load satisfies the four hypotheses; the loop loads 3
+   packages and links 2 aliases in 5 passes *)
+Theorem C06_side_loading_loop_nonvacuous :
+  (ext_loop _ toy_pass 7 (2, 3) [] 0 = Some ((0, 0), [], 5) /\ ext_loop _ toy_pass 2 (0, 0) [] 0 = Some ((0, 0), [], 1)) /\
+  forall w, exists w' u it,
+    ext_loop _ toy_pass (fst w + snd w + 2) w [] 0 = Some (w', u, it) /\ it <= fst w + snd w + 2 /\
+    toy_pass w' = (w', (false, u, false)) /\
+    exists it', ext_loop _ toy_pass (fst w' + snd w' + 2) w' [] 0 = Some (w', u, it') /\ it' <= 2.
+Proof. exact (conj toy_loop_side_loads toy_fixpoint). Qed.
+Print Assumptions C06_side_loading_loop_nonvacuous.
+
+(* resolve_aliases(implicit=False) skips the aliases that are not exported: in the model that is the skip bit
+   ([mark_skip ids]).  Raising it on ANY set of aliases keeps every hypothesis of the theorems above, so all of them
+   (termination, error discipline, all-or-nothing - stated for every well-formed heap - and the fixpoint) cover
+   implicit=False; the harness passes the non-exported aliases as [ids] and the extracted model applies mark_skip. *)
+Theorem C06_skip_bit_preserves :
+  forall coll ids h,
+  let hs := mark_skip ids h in
+  wf coll hs = wf coll h /\ direct coll hs = direct coll h /\ chains_complete hs = chains_complete h /\
+  unique_paths hs = unique_paths h /\ targets_complete hs = targets_complete h /\ no_passed hs = no_passed h.
+Proof. exact skip_preserves. Qed.
+Print Assumptions C06_skip_bit_preserves.
+
+Theorem C06_fixpoint_with_skip :
+  forall coll ids h,
+  wf coll h = true -> direct coll h = true -> chains_complete h = true -> unique_paths h = true ->
+  let hs := mark_skip ids h in
+  let h' := fst (resolve_aliases coll hs) in
+  exists u it,
+    resolve_aliases coll hs = (h', Ok (u, it)) /\
+    one_pass coll h' = (h', Ok (u, [])) /\
+    exists it', resolve_aliases coll h' = (h', Ok (u, it')) /\ it' <= 2.
+Proof. exact fixpoint_with_skip. Qed.
+Print Assumptions C06_fixpoint_with_skip.
+
+Theorem C06_skip_nonvacuous :
+  link_of (fst (resolve_aliases w_plain_coll (mark_skip [1] w_plain_heap))) 1 = None /\
+  link_of (fst (resolve_aliases w_plain_coll w_plain_heap)) 1 = Some (RReal 3) /\
+  snd (resolve_aliases w_plain_coll (mark_skip [1] w_plain_heap)) = Ok (["p.z"%string], 2).
+Proof. exact skip_nonvacuous. Qed.
+Print Assumptions C06_skip_nonvacuous.
 
 (* non-vacuity: a heap satisfying every hypothesis above, on which all three outcome classes occur *)
 Theorem C06_hypotheses_satisfiable :
